@@ -462,6 +462,17 @@ def model_cases_wasm(ctx):
             out = Internal
         cases.append(('match mem_grow_py %s %s with Ok (r, m) => Ok (r, mem_size m, len (heap m)) | Internal e => Internal e '
                       '| Diag c => Diag c | OutOfFuel => OutOfFuel end' % (before, zt(amount)), out))
+    # the memory.grow INSTRUCTION (through ModuleInstance.memory_grow); the operand masking is probed from the witness
+    before = snap()
+    got = call(inst, 'grow', (-1,))
+    masked = got == ('ok', -1)
+    ctx.cov['stages']['memory_grow_operand'] = 'masked to 32 bits' if masked else 'signed (known finding)'
+    for amount in (-1, -2 ** 31, 0):
+        before = snap()
+        got = call(inst, 'grow', (amount,))
+        out = OkV((got[1], memi.size(), len(rt.heap))) if got[0] == 'ok' else Internal
+        cases.append(('match mem_grow_instr %s %s %s with Ok (r, m) => Ok (r, mem_size m, len (heap m)) | Internal e => Internal e '
+                      '| Diag c => Diag c | OutOfFuel => OutOfFuel end' % ('true' if masked else 'false', before, zt(amount)), out))
     cases.append(('mem_size %s' % snap(), memi.size()))
     return cases
 
